@@ -18,7 +18,7 @@ def search(ctx):
 
 def run(ctx):
     ctx.prove()
-    worlds = "1200" if ctx.tier == "thorough" else "90"
+    worlds = "1000" if ctx.tier == "thorough" else "60"
     ctx.correspond("h_validate", "Validate", nontrivial=NONTRIVIAL,
                    env={"VERIF_VALIDATE_MODE": "c13", "VERIF_VALIDATE_WORLDS": worlds})
     return ctx.finish(
